@@ -43,6 +43,7 @@ RULES = {
     "N5": rules_arith.rule_N5,
     "N6": rules_arith.rule_N6,
     "P4": rules_state.rule_P4,
+    "T2": rules_types.rule_T2,
 }
 
 SELFTESTS = {"T1": rules_types.selftest_T1}
@@ -63,7 +64,7 @@ PROPS = {
     "C03": {
         "id": "C03",
         "title": "Element-wise array arithmetic, type promotion and value semantics",
-        "rules": ["T1", "T1c", "G2", "S1"],
+        "rules": ["T1", "T1c", "G2", "S1", "T2"],
         "clause": "the result type of every operator x operand-type pairing (112 binary pairings, compound forms, unary, "
                   "concatenation, selection) is the promoted one and type-changing compound forms do not compile; the length "
                   "guard of the compound array operators is a live throwing check dominating every element write; non-compound "
